@@ -13,6 +13,7 @@
   not a pole.  The vertex formula is the one EXTRACTED FROM THE SOURCE (`Gen.Vertex.vertexValue`).
 -/
 import PomerolModel.Spec.Wick
+import PomerolModel.Spec.WickChi4
 import PomerolModel.Properties.C15
 
 namespace Pomerol.Properties.C12
@@ -69,5 +70,159 @@ theorem vertex_vanishes_iff {R K : Type} [Add R] [Sub R] [Mul R] [Div R] [Neg R]
     Pomerol.Gen.Vertex.vertexValue chi G13 G24 G14 G23 β n1 n2 n3 = 0 ↔
       chi n1 n2 n3 = C15.chi0 G13 G24 G14 G23 (CplxOver.ofReal β) n1 n2 n3 := by
   rw [vertex_is_chi_minus_chi0, sub_eq_zero]
+
+/-! ### Second half: Wick factorisation of the two-particle Green's function
+
+Proved in `Spec/WickChi4.lean` by the equation of motion in frequency space, entirely at the level
+of the Lehmann sums the library evaluates (no time integrals):
+`Σ_{i'} (z₀ − h)_{ii'} χ_{i'jkl}(z₀,z₁,z₂) = β([z₁+z₂=0] δ_il G_jk(z₁) − [z₀+z₂=0] δ_ik G_jl(z₁))`
+(`chi4_equation_of_motion`), multiplied by `G(z₀) = (z₀ − h)⁻¹`. -/
+
+/-- Equation of motion of the two-particle Green's function of a quadratic Hamiltonian
+`H = Σ_kl h_kl c†_k c_l`, in frequency space:
+`Σ_{i'} (z₀ δ_{ii'} − h_{ii'}) χ_{i'jkl}(z₀,z₁,z₂) = β([z₁+z₂=0] δ_il G_jk(z₁) − [z₀+z₂=0] δ_ik G_jl(z₁))`
+for all `z` with `e^{βz} = −1` (e.g. `z₀ = iω₁`, `z₁ = iω₂`, `z₂ = −iω₃`), degenerate levels and all
+resonances included. -/
+theorem two_particle_equation_of_motion (d : EigenData ι) (c : J → Matrix ι ι ℂ) (hc : ModeCAR c)
+    (h : Matrix J J ℂ) (hH : d.H = ∑ k, ∑ l, h k l • ((c k)ᴴ * c l)) (i j k l : J)
+    (z : Fin 3 → ℂ) (hz : ∀ m, Complex.exp ((d.β:ℂ) * z m) = -1) :
+    ∑ i', (z 0 • (1 : Matrix J J ℂ) - h) i i' *
+        d.chiLehmann ![c i', c j, (c k)ᴴ] (c l)ᴴ z
+      = (d.β : ℂ) *
+        ((if z 1 + z 2 = 0 then (if i = l then d.lehmannG (c j) (c k)ᴴ (z 1) else 0) else 0)
+          - (if z 0 + z 2 = 0 then (if i = k then d.lehmannG (c j) (c l)ᴴ (z 1) else 0) else 0)) :=
+  chi4_equation_of_motion d c hc h hH i j k l z hz
+
+/-- WICK FACTORISATION (C12, second half).  For every Hamiltonian quadratic in the fermion
+operators, `H = Σ_kl h_kl c†_k c_l` (`h` arbitrary, levels possibly degenerate), the two-particle
+Green's function the library evaluates,
+`χ_{ijkl}(ω₁,ω₂;ω₃) = ∫∫∫ ⟨T c_i(τ₁) c_j(τ₂) c†_k(τ₃) c†_l(0)⟩ e^{iω₁τ₁+iω₂τ₂−iω₃τ₃}`,
+is the antisymmetrised product of single-particle Green's functions:
+`χ_{ijkl}(ω₁,ω₂;ω₃) = β ( δ_{ω₂,ω₃} G_il(iω₁) G_jk(iω₂) − δ_{ω₁,ω₃} G_ik(iω₁) G_jl(iω₂) )`
+for every index quadruple and every triple of fermionic Matsubara numbers (coinciding frequencies
+included).  This is exactly the disconnected part `χ⁰` of `C15.chi0` with
+`G13 = G_ik`, `G24 = G_jl`, `G14 = G_il`, `G23 = G_jk`. -/
+theorem two_particle_function_factorises (d : EigenData ι) (c : J → Matrix ι ι ℂ)
+    (hc : ModeCAR c) (h : Matrix J J ℂ) (hH : d.H = ∑ k, ∑ l, h k l • ((c k)ᴴ * c l))
+    (i j k l : J) (k1 k2 k3 : ℤ) :
+    d.chiLehmann ![c i, c j, (c k)ᴴ] (c l)ᴴ
+        ![I * (d.ω k1 : ℂ), I * (d.ω k2 : ℂ), -(I * (d.ω k3 : ℂ))]
+      = C15.chi0
+          (fun a => d.lehmannG (c i) (c k)ᴴ (I * (d.ω a : ℂ)))
+          (fun a => d.lehmannG (c j) (c l)ᴴ (I * (d.ω a : ℂ)))
+          (fun a => d.lehmannG (c i) (c l)ᴴ (I * (d.ω a : ℂ)))
+          (fun a => d.lehmannG (c j) (c k)ᴴ (I * (d.ω a : ℂ)))
+          (d.β : ℂ) k1 k2 k3 := by
+  rw [wick_chi4 d c hc h hH]
+  rfl
+
+/-- The same at the level of the DEFINITIONS: the signed sum of the six time-ordered simplex
+integrals of the four-operator correlator equals `β(δ G_il G_jk − δ G_ik G_jl)` with
+`G_ab(iω_n) = −∫₀^β ⟨c_a(τ) c†_b(0)⟩ e^{iω_nτ} dτ`. -/
+theorem two_particle_function_factorises_def (d : EigenData ι) (c : J → Matrix ι ι ℂ)
+    (hc : ModeCAR c) (h : Matrix J J ℂ) (hH : d.H = ∑ k, ∑ l, h k l • ((c k)ᴴ * c l))
+    (i j k l : J) (k1 k2 k3 : ℤ) :
+    d.chiDef ![c i, c j, (c k)ᴴ] (c l)ᴴ
+        ![I * (d.ω k1 : ℂ), I * (d.ω k2 : ℂ), -(I * (d.ω k3 : ℂ))]
+      = (d.β : ℂ) *
+        ((if k2 = k3 then d.Gdef (c i) (c l)ᴴ k1 * d.Gdef (c j) (c k)ᴴ k2 else 0)
+          - (if k1 = k3 then d.Gdef (c i) (c k)ᴴ k1 * d.Gdef (c j) (c l)ᴴ k2 else 0)) :=
+  wick_chiDef d c hc h hH i j k l k1 k2 k3
+
+/-- THE IRREDUCIBLE VERTEX VANISHES (C12, second half).  `Vertex4::value` as extracted from the
+source, evaluated on the two-particle Green's function and the four single-particle Green's
+functions (`G13 = G_ik`, `G24 = G_jl`, `G14 = G_il`, `G23 = G_jk`) the library computes for a
+quadratic Hamiltonian, is exactly zero for every index quadruple `(i,j,k,l)` and every triple of
+Matsubara numbers `(n1,n2,n3)`, including coinciding frequencies and degenerate levels. -/
+theorem vertex_vanishes_for_quadratic_hamiltonians (d : EigenData ι) (c : J → Matrix ι ι ℂ)
+    (hc : ModeCAR c) (h : Matrix J J ℂ) (hH : d.H = ∑ k, ∑ l, h k l • ((c k)ᴴ * c l))
+    (i j k l : J) (n1 n2 n3 : ℤ) :
+    Pomerol.Gen.Vertex.vertexValue (R := ℝ) (K := ℂ)
+      (fun a b e => d.chiLehmann ![c i, c j, (c k)ᴴ] (c l)ᴴ
+        ![I * (d.ω a : ℂ), I * (d.ω b : ℂ), -(I * (d.ω e : ℂ))])
+      (fun a => d.lehmannG (c i) (c k)ᴴ (I * (d.ω a : ℂ)))
+      (fun a => d.lehmannG (c j) (c l)ᴴ (I * (d.ω a : ℂ)))
+      (fun a => d.lehmannG (c i) (c l)ᴴ (I * (d.ω a : ℂ)))
+      (fun a => d.lehmannG (c j) (c k)ᴴ (I * (d.ω a : ℂ)))
+      d.β n1 n2 n3 = 0 := by
+  rw [vertex_vanishes_iff]
+  exact two_particle_function_factorises d c hc h hH i j k l n1 n2 n3
+
+/-! ### Sanity example: one spinless level
+
+`H = 2 c†c` at `β = 1` on the Fock space `{|0⟩, |1⟩}` (energies `0, 2`), `c = |0⟩⟨1|`, `h = (2)`.
+All hypotheses of the theorems above hold, `G(iω) = 1/(iω − 2)`, and
+`χ_{0000}(ω₁,ω₂;ω₃) = (δ_{ω₂ω₃} − δ_{ω₁ω₃}) / ((iω₁ − 2)(iω₂ − 2))`. -/
+
+/-- eigen-data: β = 1, energies 0 and 2 -/
+noncomputable def exD : EigenData (Fin 2) := ⟨1, one_pos, ![0, 2]⟩
+/-- the annihilation operator `c = |0⟩⟨1|` -/
+def exC : Unit → Matrix (Fin 2) (Fin 2) ℂ := fun _ => !![0, 1; 0, 0]
+/-- the single-particle matrix `h = (2)` -/
+def exH : Matrix Unit Unit ℂ := fun _ _ => 2
+
+theorem exC_adj (i : Unit) : (exC i)ᴴ = !![0, 0; 1, 0] := by
+  ext a b
+  fin_cases a <;> fin_cases b <;> simp [exC, Matrix.conjTranspose_apply]
+
+theorem exC_car : ModeCAR exC := by
+  constructor
+  · intro i j
+    rw [exC_adj]
+    ext a b
+    fin_cases a <;> fin_cases b <;> simp [exC]
+  · intro i j
+    ext a b
+    fin_cases a <;> fin_cases b <;> simp [exC]
+
+theorem exD_H : exD.H = ∑ k, ∑ l, exH k l • ((exC k)ᴴ * exC l) := by
+  simp only [exC_adj]
+  ext a b
+  fin_cases a <;> fin_cases b <;> simp [EigenData.H, exD, exC, exH]
+
+theorem exG (k : ℤ) :
+    exD.lehmannG (exC ()) (exC ())ᴴ (I * (exD.ω k : ℂ)) = 1 / (I * (exD.ω k : ℂ) - 2) := by
+  have hexp : Complex.exp ((exD.β:ℂ) * (I * (exD.ω k : ℂ))) = -1 := by
+    rw [← exp_I_omega_beta exD k]
+    congr 1
+    ring
+  have hpole : ∀ n m, I * (exD.ω k : ℂ) ≠ ((exD.E m - exD.E n : ℝ) : ℂ) := fun n m =>
+    sub_ne_zero.mp (sub_ofReal_ne_zero_of_exp_eq_neg_one hexp _)
+  have h := Pomerol.Spec.free_propagator exD exC exC_car exH exD_H _ hpole
+  have h00 := congrFun (congrFun h ()) ()
+  rw [Matrix.mul_apply] at h00
+  simp only [Finset.univ_unique, Finset.sum_singleton, Matrix.sub_apply, Matrix.smul_apply,
+    Matrix.one_apply_eq, smul_eq_mul, mul_one, Matrix.of_apply, exH] at h00
+  have hne : I * (exD.ω k : ℂ) - 2 ≠ 0 := by
+    have := sub_ofReal_ne_zero_of_exp_eq_neg_one hexp 2
+    simpa using this
+  rw [eq_div_iff hne]
+  linear_combination h00
+
+/-- the example: hypotheses satisfied (non-vacuity) and the explicit value of χ -/
+example (k1 k2 k3 : ℤ) :
+    exD.chiLehmann ![exC (), exC (), (exC ())ᴴ] (exC ())ᴴ
+        ![I * (exD.ω k1 : ℂ), I * (exD.ω k2 : ℂ), -(I * (exD.ω k3 : ℂ))]
+      = ((if k2 = k3 then 1 else 0) - (if k1 = k3 then 1 else 0))
+          / ((I * (exD.ω k1 : ℂ) - 2) * (I * (exD.ω k2 : ℂ) - 2)) := by
+  rw [wick_chi4 exD exC exC_car exH exD_H, exG, exG]
+  have hβ : (exD.β : ℂ) = 1 := by simp [exD]
+  rw [hβ]
+  generalize I * (exD.ω k1 : ℂ) - 2 = a
+  generalize I * (exD.ω k2 : ℂ) - 2 = b
+  by_cases h23 : k2 = k3 <;> by_cases h13 : k1 = k3 <;>
+    simp only [h23, h13, if_true, if_false] <;> ring
+
+/-- ... and its vertex is zero -/
+example (n1 n2 n3 : ℤ) :
+    Pomerol.Gen.Vertex.vertexValue (R := ℝ) (K := ℂ)
+      (fun a b e => exD.chiLehmann ![exC (), exC (), (exC ())ᴴ] (exC ())ᴴ
+        ![I * (exD.ω a : ℂ), I * (exD.ω b : ℂ), -(I * (exD.ω e : ℂ))])
+      (fun a => exD.lehmannG (exC ()) (exC ())ᴴ (I * (exD.ω a : ℂ)))
+      (fun a => exD.lehmannG (exC ()) (exC ())ᴴ (I * (exD.ω a : ℂ)))
+      (fun a => exD.lehmannG (exC ()) (exC ())ᴴ (I * (exD.ω a : ℂ)))
+      (fun a => exD.lehmannG (exC ()) (exC ())ᴴ (I * (exD.ω a : ℂ)))
+      exD.β n1 n2 n3 = 0 :=
+  vertex_vanishes_for_quadratic_hamiltonians exD exC exC_car exH exD_H () () () () n1 n2 n3
 
 end Pomerol.Properties.C12
